@@ -270,6 +270,9 @@ def run(ctx, deep=False):
                 ctx.violation("merge_lists_w_ordering-not-a-union", case, "got %r" % (m,))
             elif not (set(a) & set(b)) and m != a + b:
                 ctx.violation("merge_lists_w_ordering-disjoint-not-concatenated", case, "got %r" % (m,))
+        # "maintaining ordering" (merge_order_left/right, any lists): what only one list has keeps its order there
+        if m is not None and ([x for x in m if x not in b] != [x for x in a if x not in b] or [x for x in m if x not in a] != [x for x in b if x not in a]):
+            ctx.violation("merge_lists_w_ordering-exclusive-elements-reordered", case, "got %r" % (m,))
     ctx.count("mergelists.exhaustive-pairs", len(dom) * len(dom))
     if ctx.driver_ok():
         ctx.correspond("corr/c54:merge_lists_w_ordering-vs-Model.MergeLists", cases, impl_out, ctx.driver(reqs))
@@ -336,6 +339,8 @@ def replay(ctx, obj):
             fail = ("merge_lists_w_ordering-not-a-union", repr(m))
         elif nod and not (set(c["a"]) & set(c["b"])) and m != list(c["a"]) + list(c["b"]):
             fail = ("merge_lists_w_ordering-disjoint-not-concatenated", repr(m))
+        elif [x for x in m if x not in c["b"]] != [x for x in c["a"] if x not in c["b"]] or [x for x in m if x not in c["a"]] != [x for x in c["b"] if x not in c["a"]]:
+            fail = ("merge_lists_w_ordering-exclusive-elements-reordered", repr(m))
         elif model != "?" and model != "ok " + nl(m):
             fail = ("merge_lists_w_ordering-differs-from-model", model)
     elif kind == "misc":
